@@ -302,6 +302,25 @@ func Helpers(seed uint64, n int) *Out {
 				}
 				doExtend(i)
 			case 7, 8:
+				if k >= len(script) && r.P(35) {
+					// the variadic form: s.Merge(o1, o2, ...), two to four operands
+					var js []int
+					var ops2 []*z.StructSchema
+					ks := keysets[i]
+					var cjs []string
+					for m := 2 + r.Intn(3); m > 0; m-- {
+						j := r.Intn(len(schemas))
+						js = append(js, j)
+						ops2 = append(ops2, schemas[j])
+						ks = union(ks, keysets[j])
+						cjs = append(cjs, fmt.Sprint(j))
+					}
+					derived = append(derived, len(schemas))
+					schemas = append(schemas, schemas[i].Merge(ops2[0], ops2[1:]...))
+					keysets = append(keysets, ks)
+					ops = append(ops, fmt.Sprintf("OMergeN %d [%s]", i, strings.Join(cjs, "; ")))
+					continue
+				}
 				j := r.Intn(len(schemas))
 				if k < len(script) {
 					j = 1 // the fresh operand
